@@ -36,8 +36,9 @@ def verifier_scalars(F):
     """Verifier::verification_scalars on symbolic inputs."""
 
     def go():
-        I = H.new_interp(F, {H.P_VER + "flattened_constraints": H.hook_flatten_verifier})
+        I = H.new_interp(F, H.flatten_hooks(F, "verifier"))
         ver, proof, bp = H.mk_verifier(), H.mk_proof(), H.mk_bp_gens()
+        I.role_obj = {"verifier": ver}
         v = I.call_fn(H.P_VER + "verification_scalars", [ver, proof, bp])
         out = ok_payload(v)
         return {"I": I, "ret": v, "self": out.items[0], "scalars": out.items[1], "proof": proof, "bp": bp, "ver": ver}
@@ -49,8 +50,9 @@ def verify_full(F):
     """Verifier::verify_and_return_transcript with everything inlined (verdict, bases, layout)."""
 
     def go():
-        I = H.new_interp(F, {H.P_VER + "flattened_constraints": H.hook_flatten_verifier})
+        I = H.new_interp(F, H.flatten_hooks(F, "verifier"))
         ver, proof, bp, pc = H.mk_verifier(), H.mk_proof(), H.mk_bp_gens(), H.mk_pc_gens()
+        I.role_obj = {"verifier": ver}
         v = I.call_fn(H.P_VER + "verify_and_return_transcript", [ver, proof, pc, bp])
         return {"I": I, "ret": v, "proof": proof, "bp": bp, "pc": pc, "ver": ver}
 
@@ -75,9 +77,10 @@ def verify_wrapper(F):
 
 def prover_run(F):
     def go():
-        I = H.new_interp(F, {H.P_PRV + "flattened_constraints": H.hook_flatten_prover, H.P_IPP + "create": H.hook_ipp_create})
+        I = H.new_interp(F, dict(H.flatten_hooks(F, "prover"), **{H.P_IPP + "create": H.hook_ipp_create}))
         pc = H.mk_pc_gens()
         prv, bp = H.mk_prover(pc=pc), H.mk_bp_gens()
+        I.role_obj = {"prover": prv}
         rng = RngV("param", "ext")
         v = I.call_fn(H.P_PRV + "prove_and_return_transcript", [prv, rng, bp])
         out = ok_payload(v)
